@@ -27,10 +27,22 @@ class FQ:
     def put(self, x):
         self.items.append(x)
 
-    def get(self, timeout=None):
+    def get(self, block=True, timeout=None):
         if not self.items:
             raise queue.Empty()
         return self.items.pop(0)
+
+    def get_nowait(self):
+        return self.get(False)
+
+    def put_nowait(self, x):
+        self.put(x)
+
+    def empty(self):
+        return not self.items
+
+    def qsize(self):
+        return len(self.items)
 
 
 class FC:
@@ -78,11 +90,15 @@ def bus(o0: int, o1: int, o2: int, o3: int, o4: int, o5: int) -> bool:
     q = FQ()
     eq = EventQueue(q)
     d = EventDispatcher(threading.Event(), eq)
+    batch = bool(CFG.get('batch'))     # True: every request is enqueued first, the dispatcher runs afterwards until the queue is empty
+    pending_runs = 0
     cur = [None] * N          # live channel per subscriber id (reference model)
     chans = []                # every channel ever created, with its expected message kinds
     seq = 0
     for o in ops:
         enq = True
+        if batch and (o == 3 * N + 1 or 2 * N <= o < 3 * N):
+            return skip()       # breaking a channel is not a queued request: its position relative to queued ones is not defined
         if o == 3 * N + 1:
             # subscriber 0 subscribes with a channel that is broken already when the acknowledgement is sent
             if cur[0] is not None:
@@ -132,7 +148,9 @@ def bus(o0: int, o1: int, o2: int, o3: int, o4: int, o5: int) -> bool:
                         cur[i] = None
                     else:
                         c.expect.append(seq)
-        if enq:
+        if enq and batch:
+            pending_runs += 1
+        elif enq:
             try:
                 d.run_once()
             except queue.Empty:
@@ -145,6 +163,15 @@ def bus(o0: int, o1: int, o2: int, o3: int, o4: int, o5: int) -> bool:
                 return fail('run_once consumed an event that was never enqueued')
             except queue.Empty:
                 pass
+    if batch:
+        # requests are handled strictly in the order they were queued, however many are waiting when the dispatcher gets to run
+        for k in range(pending_runs + 1):
+            try:
+                d.run_once()
+            except queue.Empty:
+                break
+            except Exception as e:
+                return fail('dispatcher raised', exc=repr(e))
     for c in chans:
         got = []
         for m in c.got:
@@ -184,6 +211,12 @@ def obligations(tier):
         for first in range(3 * N + 2):
             obs.append({'name': 'bus.s%d.len%d.first%d' % (N, L, first), 'fn': 'bus',
                         'cfg': {'subs': N, 'len': L, 'first': first}, 'timeout': 600 if tier == 'quick' else 3000})
+    for N, L in ((2, 4), (1, 5)) if tier == 'quick' else ((2, 5), (1, 6)):
+        for first in range(3 * N + 1):
+            if 2 * N <= first < 3 * N:
+                continue
+            obs.append({'name': 'bus.batch.s%d.len%d.first%d' % (N, L, first), 'fn': 'bus',
+                        'cfg': {'subs': N, 'len': L, 'first': first, 'batch': True}, 'timeout': 600 if tier == 'quick' else 3000})
     return obs
 
 
@@ -191,7 +224,8 @@ META = {
     'bounds': {
         'quick': 'all histories of length 5 over 2 subscribers and of length 4 over 3 subscribers; operations: subscribe i (fresh channel), '
                  'unsubscribe i (also unknown / repeated), break channel i, publish, subscribe with a channel that is already broken, come back '
-                 'under the same id with a fresh channel after the old one broke; run_once after every operation',
+                 'under the same id with a fresh channel after the old one broke; run_once after every operation; and histories of subscribe / unsubscribe / publish (length 4 over 2 subscribers, 5 over 1) that are '
+                 'queued completely before the dispatcher runs',
         'thorough': 'length 6 over 2 subscribers, 5 over 3, 6 over 1',
     },
     'outside': 'real pipes, threads and pickling (EventManager, EventSubscriber.relay); re-subscribing an id whose channel is intact '
